@@ -496,3 +496,61 @@ def s_all_objects(ex, args, kwargs, st, node):
 
 
 SYMBOLIC.update({"all_objects": s_all_objects})
+
+
+# ---- allOf merging (C02) ---------------------------------------------------------------------------------------------------
+def required_covered(components, n, merged_required):
+    """every name required by one of the first n allOf components is in merged_required"""
+    return all(r in merged_required for c in components[:n] for r in (c.required or []))
+
+
+def s_required_covered(ex, args, kwargs, st, node):
+    comps = ex.need(ex.as_val(args[0], st, node), "l", st, node)
+    n = ex.need_int(ex.as_val(args[1], st, node), st, node)
+    merged = ex.need(ex.as_val(args[2], st, node), "st", st, node)
+    req = z3.Function("attr.required", Any, Any)
+    S = z3.Function("py.sset_of_list", ListS, z3.ArraySort(StrS, z3.BoolSort()))
+    j = z3.Const("j!rc", z3.IntSort())
+    r = req(comps[j])
+    return VBool(z3.ForAll([j], z3.Implies(z3.And(0 <= j, j < n, j < z3.Length(comps), recog("l")(r), z3.Length(acc("l")(r)) > 0),
+                                           z3.IsSubset(S(acc("l")(r)), merged))))
+
+
+def own_required_covered(node, merged_required):
+    return all(r in merged_required for r in node.get("required", []))
+
+
+def s_own_required_covered(ex, args, kwargs, st, node_):
+    nd = ex.need(ex.as_val(args[0], st, node_), "d", st, node_)
+    merged = ex.need(ex.as_val(args[1], st, node_), "st", st, node_)
+    r = z3.Select(nd, z3.StringVal("required"))
+    S = z3.Function("py.sset_of_list", ListS, z3.ArraySort(StrS, z3.BoolSort()))
+    return VBool(z3.Implies(z3.And(recog("l")(r), z3.Length(acc("l")(r)) > 0), z3.IsSubset(S(acc("l")(r)), merged)))
+
+
+SYMBOLIC.update({"required_covered": s_required_covered, "own_required_covered": s_own_required_covered})
+
+
+def subset_of_list_in_set(xs, s):
+    return all(x in s for x in (xs or []))
+
+
+def s_subset_of_list_in_set(ex, args, kwargs, st, node):
+    v = ex.as_val(args[0], st, node)
+    merged = ex.need(ex.as_val(args[1], st, node), "st", st, node)
+    S = z3.Function("py.sset_of_list", ListS, z3.ArraySort(StrS, z3.BoolSort()))
+    l = v.payload("l")
+    return VBool(z3.Implies(z3.And(v.is_tag("l"), z3.Length(l) > 0), z3.IsSubset(S(l), merged)))
+
+
+def set_grows(old_s, new_s):
+    return set(old_s) <= set(new_s)
+
+
+def s_set_grows(ex, args, kwargs, st, node):
+    a = ex.need(ex.as_val(args[0], st, node), "st", st, node)
+    b = ex.need(ex.as_val(args[1], st, node), "st", st, node)
+    return VBool(z3.IsSubset(a, b))
+
+
+SYMBOLIC.update({"subset_of_list_in_set": s_subset_of_list_in_set, "set_grows": s_set_grows})
